@@ -248,6 +248,7 @@ class NxMixedGraph:
         """
         self.raise_on_counterfactual()
         return _latent_dag(
+            nodes=self.nodes(),
             di_edges=self.directed.edges(),
             bi_edges=self.undirected.edges(),
             prefix=prefix,
@@ -748,6 +749,7 @@ def _latent_dag(
     di_edges: Iterable[tuple[Variable, Variable]],
     bi_edges: Iterable[tuple[Variable, Variable]],
     *,
+    nodes: Iterable[Variable] | None = None,
     prefix: str | None = None,
     start: int = 0,
     tag: str | None = None,
@@ -756,6 +758,7 @@ def _latent_dag(
 
     :param di_edges: A list of directional edges
     :param bi_edges: A list of bidirectional edges
+    :param nodes: Nodes to include even if they appear in no edge
     :param prefix: The prefix for latent variables. If none, defaults to :data:`y0.graph.DEFAULT_PREFIX`.
     :param start: The starting number for latent variables (defaults to 0, could be changed to 1 if desired)
     :param tag: The key for node data describing whether it is latent.
@@ -770,6 +773,7 @@ def _latent_dag(
     bi_edges_list = list(bi_edges)
 
     rv = nx.DiGraph()
+    rv.add_nodes_from(nodes or ())
     rv.add_nodes_from(itt.chain.from_iterable(bi_edges_list))
     rv.add_edges_from(di_edges)
     nx.set_node_attributes(rv, False, tag)
